@@ -160,12 +160,63 @@ def run(ctx):
                 ctx.ob(R2, f"{mname}::res_cost", ok, f"res_cost <- {norm(node.value, 60)}", f"{m.relpath}:{node.lineno}")
     if not found:
         ctx.fail("assignment of net.res_cost not found")
+    rule_cost_rows(ctx)
+
+
+def rule_cost_rows(ctx):
+    """a cost reaches the row / the columns of the generator it belongs to"""
+    from rules import _lints
+    from ppsa.astutil import inline_locals
+    R3 = "COST-ROW"
+    ctx.rule(R3, "the cost of dcline k is mapped to the auxiliary generator of its from side: row len(net.gen) - 2*len(net.dcline) + 2*k + 1 "
+                 "(two auxiliary generators per dcline, appended in table order; decided by evaluating the index expression for sample "
+                 "values); makeAy computes the segment count ns of a piecewise-linear cost inside every loop that uses it")
+    fi = ctx.repo.func(f"{MO}:_get_gen_index")
+    blk = next((n for n in fi.node.body if isinstance(n, ast.If) and "dcline" in norm(n.test, 40)), None)
+    st = next((x for x in (blk.body if blk else []) if isinstance(x, ast.Assign) and norm(x.targets[0], 20) == "element"), None)
+    ok = False
+    det = "dcline branch not found"
+    if st is not None:
+        e = inline_locals(blk, st.value, keep=("dc_idx",))
+
+        def ev(n, G, N, k):
+            t = norm(n, 80).replace(" ", "")
+            if t in ("len(net.gen.index)", "len(net.gen)", "net.gen.shape[0]"):
+                return G
+            if t in ("len(net.dcline)", "len(net.dcline.index)", "net.dcline.shape[0]"):
+                return N
+            if isinstance(n, ast.Name) and n.id == "dc_idx":
+                return k
+            if isinstance(n, ast.Constant) and isinstance(n.value, int):
+                return n.value
+            if isinstance(n, ast.BinOp):
+                a, b = ev(n.left, G, N, k), ev(n.right, G, N, k)
+                if isinstance(n.op, ast.Add):
+                    return a + b
+                if isinstance(n.op, ast.Sub):
+                    return a - b
+                if isinstance(n.op, ast.Mult):
+                    return a * b
+            raise ValueError(t)
+        try:
+            vals = [(ev(e, G, N, k), G - 2 * N + 2 * k + 1) for G, N, k in ((10, 3, 0), (10, 3, 1), (10, 3, 2), (7, 1, 0), (25, 4, 3))]
+            ok = all(a == b for a, b in vals)
+            det = f"element = {norm(e, 90)}; sample rows (got, expected): {vals}"
+        except ValueError as ex:
+            det = f"index expression not evaluable: {ex}"
+    ctx.ob(R3, f"{MO}::_get_gen_index::dcline-row", ok, det, fi.loc(st) if st is not None else fi.loc())
+    fa = ctx.repo.func("pandapower.pypower.makeAy:makeAy")
+    if _lints.stale_loop_variable(ctx, R3, [fa]) < 2:
+        ctx.fail("makeAy: the two loops over the piecewise-linear costs were not found")
 
 
 def variants(repo):
     p = "pandapower/opf/make_objective.py"
     V = Variant
     return [
+        V("dcline cost on the wrong auxiliary generator", p, replace_once("element = len(net.gen.index) - 2*len(net.dcline) + dc_idx*2 + 1", "element = len(net.gen.index) - 2*len(net.dcline) + dc_idx + 1"), "dcline-row"),
+        V("makeAy reuses the segment count of the last row", "pandapower/pypower/makeAy.py", lambda s: s.replace("    for i in iycost:\n        ns = gencost[i, NCOST].astype(int64)\n        ## FIXME", "    for i in iycost:\n        ## FIXME", 1), "makeAy"),
+        V("twin: first auxiliary generator in a local", p, replace_once("element = len(net.gen.index) - 2*len(net.dcline) + dc_idx*2 + 1", "first_dc_gen = len(net.gen.index) - 2*len(net.dcline)\n        element = first_dc_gen + 2*dc_idx + 1"), None),
         V("signs before filtering", p, in_function("_map_costs_to_gen", lambda s: s.replace('    signs = array([-1 if element in ["load", "storage", "dcline"] else 1 for element in cost.et])\n', '', 1).replace("    cost_is = array(", '    signs = array([-1 if element in ["load", "storage", "dcline"] else 1 for element in cost.et])\n    cost_is = array(', 1)), "signs-aligned-with-filtered-costs"),
         V("dc opf coefficients scaled in the wrong order", "pandapower/pypower/dcopf_solver.py", replace_once("polycf = dot(polycf, diag([ baseMVA**2, baseMVA, 1]))", "polycf = polycf * array([1, baseMVA, baseMVA**2])"), "polycf-per-unit"),
         V("sign on quadratic term", p, replace_once('ppci["gencost"][gens, COST] = c2\n', 'ppci["gencost"][gens, COST] = c2 * signs\n'), "NCOST=3"),
